@@ -55,7 +55,8 @@ def rewrite(r, mj, P, kind):
         r.shuffle(m2["functions"])
     elif kind == "rename":
         names = [k for k, _ in mj["states"] + mj["choices"]]
-        new = [f"{'zyxwvutsrq'[i % 10]}{i}_{n[::-1]}" for i, n in enumerate(names)]
+        # one of the new names has `next_` in the middle (e.g. "periods_to_next_job"): only the *prefix* `next_` has a meaning
+        new = [f"{'zyxwvutsrq'[i % 10]}{i}_{'next_' if i == 0 else ''}{n[::-1]}" for i, n in enumerate(names)]
         r.shuffle(new)
         mp = dict(zip(names, new))
         back = {v: k for k, v in mp.items()}
